@@ -235,7 +235,7 @@ def mc_task(logic, n, ftxts, opts=None):
             depths = None
             if (logic != 'CTL' or opts.get('ctls_oracle')) and not opts.get('sub_n'):
                 depths = oracle_depths(f, n, aps, fixed, fair_names if nfair is not None else None, const=bool(opts.get('fair_const')), pool=lab_pool)
-            d = Decider(care, timeout_ms=opts.get('timeout_ms', 300000), record=bool(opts.get('cross')))
+            d = Decider(care, timeout_ms=opts.get('timeout_ms', 600000), record=bool(opts.get('cross')))
             T2, lab2 = matrix(n, fixed=fixed), labels(n, aps, fixed=fixed)
             if lab_pool:
                 lab2 = {lab_pool[a]: v for a, v in lab2.items()}
